@@ -14,13 +14,14 @@ LEVEL = 'exploration'
 BUDGET = {'quick': 12000, 'thorough': 300000}
 WALL = {'quick': 45, 'thorough': 1500}
 RULE = ('one simulated trash-put per case over a generated world (entry kind x argument spelling x '
-        'options x volume/trash-dir layout); a case is non-trivial when at least one argument names an '
+        'options x volume/trash-dir layout); in 15 % of the cases the environment refuses to let one argument go (entry immutable / '
+        'its directory not writable, as persistent conditions - single faults at every operation are C17\'s); a case is non-trivial when at least one argument names an '
         'existing entry; distinct = distinct (spelling class, entry kind, option set, trash-dir state, '
         'outcome) tuples')
 ASSUMPTIONS = ['user directories in generated worlds are never named files/ or info/',
                'arguments of one command name pairwise unrelated entries']
 PROBES = ['trashed', 'untouched', 'home-trash', 'volume-trash', 'collision-suffix', 'dot-refused',
-          'interactive-declined', 'cross-volume-copy', 'mountroot-arg']
+          'interactive-declined', 'cross-volume-copy', 'mountroot-arg', 'environment-refuses-one-argument', 'refusal-met']
 
 
 def gen(rng):
@@ -101,7 +102,15 @@ def gen(rng):
     if not dashdash and any(a.startswith('-') for a in args):
         dashdash = ['--']
     argv = ['trash-put'] + opts + dashdash + args
+    faults = []
+    if chosen and rng.random() < 0.15:
+        # the environment refuses to let one argument go (immutable entry: EPERM; its directory not writable: EACCES):
+        # a run that reports the failure must leave it exactly as it was, whatever kind of entry it is
+        _vol, fwd, fnm, _kind = rng.choice(chosen)
+        faults.append(rng.choice([{'kind': 'cond', 'what': 'immutable', 'entry': fwd + '/' + fnm},
+                                  {'kind': 'cond', 'what': 'dir_not_writable', 'dir': fwd}]))
     return {
+        'faults': faults,
         'world': {'mounts': L['mounts'], 'steps': steps},
         'procs': [{'argv': argv, 'env': env, 'cwd': cwd, 'stdin': stdin, 'uid': uid}],
         'dirsalt': rng.randrange(1 << 30),
@@ -230,6 +239,10 @@ def check(sim, case, st):
             res.append(('C01/reported-failure-but-%s/%s/%s' % (oc.state + (':' + oc.why if oc.why else ''), nm.cls, nm.ekind),
                         'trash-put printed a failure for %r (exit %s) but the entry %r is in state %s %s\nstderr: %s'
                         % (nm.arg, r.exit, nm.loc, oc.state, oc.why, errs[-800:])))
+    if case.get('faults'):
+        st.probes['environment-refuses-one-argument'] += 1
+        if any(ev[6] and str(ev[6]).startswith('FAULT:') for ev in r.trace):
+            st.probes['refusal-met'] += 1
     if '-i' in argv and any(oc.state == 'untouched' and oc.named.kind == 'entry' for oc in outcomes) and r.exit == 0:
         st.probes['interactive-declined'] += 1
     if any(ev[2] in ('sendfile', 'symlink') or (ev[2] == 'mkdir' and '/files/' in (ev[3] or '')) for ev in r.trace):
